@@ -178,27 +178,28 @@ def candidates (p : Pool) (skip : List String) (choice : List String) (num : Nat
 
 /-- the `vipnode_whitelist` calls a peer request makes -/
 def whitelistCalls (p : Pool) (id : String) (num : Int) (choice : List String) : List (String × String) :=
-  let n := p.effectiveNum num
-  if n ≤ 0 then []
+  if p.effectiveNum num ≤ 0 then []
   else match p.store.nodePeers id with
     | .error _ => []
-    | .ok peers => p.candidates (id :: peers.map (·.id)) choice n.toNat
+    | .ok peers => p.candidates (id :: peers.map (·.id)) choice (p.effectiveNum num).toNat
+
+/-- the reply assembled from the candidates' answers: the acknowledged ones; an error only if there are none -/
+def replyOf (cands : List (String × String)) (outcome : String → HostOutcome) (tried : Nat) :
+    Except PoolErr (List String) :=
+  if cands.filter (fun hc => outcome hc.2 == .ack) ≠ [] then
+    .ok ((cands.filter (fun hc => outcome hc.2 == .ack)).map (·.1))
+  else if cands.filter (fun hc => outcome hc.2 != .ack) ≠ [] then
+    .error (.remoteErrors (cands.filter (fun hc => outcome hc.2 != .ack)).length)
+  else .error (.noHosts tried)
 
 /-- `requestHosts`. `choice`: what `ActiveHosts(kind, num + |skip|)` returned (in order);
 `outcome c`: how the host behind connection `c` answers the whitelist call. -/
 def requestHosts (p : Pool) (id : String) (num : Int) (choice : List String) (outcome : String → HostOutcome) :
     Except PoolErr (List String) :=
-  let n := p.effectiveNum num
-  if n ≤ 0 then .ok []
+  if p.effectiveNum num ≤ 0 then .ok []
   else match p.store.nodePeers id with
     | .error e => .error (.store e)
-    | .ok _ =>
-      let cands := p.whitelistCalls id num choice
-      let accepted := cands.filter (fun hc => outcome hc.2 == .ack)
-      let failed := cands.filter (fun hc => outcome hc.2 != .ack)
-      if accepted ≠ [] then .ok (accepted.map (·.1))
-      else if failed ≠ [] then .error (.remoteErrors failed.length)
-      else .error (.noHosts choice.length)
+    | .ok _ => replyOf (p.whitelistCalls id num choice) outcome choice.length
 
 /-- how many hosts `requestHosts` asks the store for -/
 def activeHostsLimit (p : Pool) (id : String) (num : Int) : Option Int :=
@@ -214,6 +215,33 @@ def Peer (p : Pool) (sigOk : Bool) (id : String) (nonce now : Int) (num : Int) (
   match p.verify sigOk id nonce now with
   | .error e => (p, .error e)
   | .ok p1 => (p1, p1.requestHosts id num choice outcome)
+
+/-! ### legacy endpoints (`vipnode_host`, `vipnode_client`): verify, connect, and for clients a host request -/
+
+/-- `ethnode.ParseNodeKind(s).String()` on lower-case input -/
+def parseKindStr (s : String) : String :=
+  if s = "geth" ∨ s = "parity" ∨ s = "pantheon" then s else "unknown"
+
+def Host (p : Pool) (conn : Option String) (src : String) (sigOk : Bool) (id : String) (nonce : Int)
+    (kind payout : String) (override : Option Override) (overrideUnparsable : Bool) (now : Int) :
+    Pool × Except PoolErr Unit :=
+  match p.verify sigOk id nonce now with
+  | .error e => (p, .error e)
+  | .ok p1 => p1.connect conn src id { kind := parseKindStr kind, isFull := true, override := override,
+                                        overrideUnparsable := overrideUnparsable, payout := payout } now
+
+/-- the number of hosts a legacy client request asks for: its own count if positive, else the documented default -/
+def clientNumHosts (numHosts : Int) : Int := if numHosts > 0 then numHosts else Facts.defaultRequestNumHosts
+
+def Client (p : Pool) (conn : Option String) (src : String) (sigOk : Bool) (id : String) (nonce : Int)
+    (kind : String) (numHosts : Int) (now : Int) (choice : List String) (outcome : String → HostOutcome) :
+    Pool × Except PoolErr (List String) :=
+  match p.verify sigOk id nonce now with
+  | .error e => (p, .error e)
+  | .ok p1 =>
+    match p1.connect conn src id { kind := parseKindStr kind, isFull := false } now with
+    | (p2, .error e) => (p2, .error e)
+    | (p2, .ok _) => (p2, p2.requestHosts id (clientNumHosts numHosts) choice outcome)
 
 /-! ### payment service -/
 
@@ -233,8 +261,19 @@ def AddNode (p : Pool) (sigOk : Bool) (wallet : String) (nonce now : Int) (id : 
 def walletBalance (p : Pool) (wallet : String) : Bal :=
   { p.store.getAccountBalance wallet with deposit := (p.deposits.get wallet).getD 0 }
 
+def belowWithdrawMin (cfg : PoolCfg) (total : Int) : Bool :=
+  match cfg.withdrawMin with
+  | some m => decide (total < m)
+  | none => false
+
+/-- the amount disbursed: the balance minus the fee -/
+def withdrawPay (cfg : PoolCfg) (total : Int) : Int :=
+  match cfg.withdrawFee with
+  | some f => total - f
+  | none => total
+
 /-- `Withdraw`. `settleOk`: does the settlement transaction succeed?  On success the handler
-sets the on-chain balance to 0 and disburses `pay`; the pool then resets the settled credit. -/
+sets the on-chain balance to 0 and disburses `pay`; the pool then deducts the settled credit. -/
 def Withdraw (p : Pool) (sigOk : Bool) (wallet : String) (nonce now : Int) (settleOk : Bool) :
     Pool × Except PoolErr Int :=
   match p.payVerify sigOk wallet nonce now with
@@ -244,20 +283,55 @@ def Withdraw (p : Pool) (sigOk : Bool) (wallet : String) (nonce now : Int) (sett
     else
       let b := p1.walletBalance wallet
       let total := b.deposit + b.credit
-      let below := match p1.cfg.withdrawMin with
-        | some m => decide (total < m)
-        | none => false
-      if below then (p1, .error (.withdrawMin total (p1.cfg.withdrawMin.getD 0)))
+      if belowWithdrawMin p1.cfg total then (p1, .error (.withdrawMin total (p1.cfg.withdrawMin.getD 0)))
+      else if !settleOk then (p1, .error .settleFailed)
       else
-        let pay := match p1.cfg.withdrawFee with
-          | some f => total - f
-          | none => total
-        if !settleOk then (p1, .error .settleFailed)
-        else
-          ({ p1 with
-              deposits := p1.deposits.set wallet 0
-              paid := p1.paid.set wallet ((p1.paid.get wallet).getD 0 + pay)
-              store := p1.store.addAccountBalance wallet (-b.credit) }, .ok pay)
+        let pay := withdrawPay p1.cfg total
+        ({ p1 with
+            deposits := p1.deposits.set wallet 0
+            paid := p1.paid.set wallet ((p1.paid.get wallet).getD 0 + pay)
+            store := p1.store.addAccountBalance wallet (-b.credit) }, .ok pay)
+
+end Pool
+end Vipnode
+
+namespace Vipnode
+namespace Pool
+
+/-- Pool-level operations, for statements about histories. Every environment
+input (clock readings, signature validity, store choice, host outcomes, fault
+pattern, settlement outcome) is part of the operation. -/
+inductive Op
+  | connect (conn : Option String) (src : String) (sigOk : Bool) (id : String) (nonce : Int) (req : ConnectReq) (now : Int)
+  | update (sigOk : Bool) (id : String) (nonce : Int) (reported : List String) (block : Nat) (now mnow : Int) (fail : Nat → Bool)
+  | peer (sigOk : Bool) (id : String) (nonce now : Int) (num : Int) (choice : List String) (outcome : String → HostOutcome)
+  | close (conn : String)
+  | addNode (sigOk : Bool) (wallet : String) (nonce now : Int) (id : String)
+  | withdraw (sigOk : Bool) (wallet : String) (nonce now : Int) (settleOk : Bool)
+  | deposit (wallet : String) (amt : Int)
+
+def step (p : Pool) : Op → Pool
+  | .connect conn src sigOk id nonce req now => (p.Connect conn src sigOk id nonce req now).1
+  | .update sigOk id nonce reported block now mnow fail => (p.Update sigOk id nonce reported block now mnow fail).1
+  | .peer sigOk id nonce now num choice outcome => (p.Peer sigOk id nonce now num choice outcome).1
+  | .close conn => p.closeRemote conn
+  | .addNode sigOk wallet nonce now id => (p.AddNode sigOk wallet nonce now id).1
+  | .withdraw sigOk wallet nonce now settleOk => (p.Withdraw sigOk wallet nonce now settleOk).1
+  | .deposit wallet amt => { p with deposits := p.deposits.set wallet amt }
+
+def run (p : Pool) (ops : List Op) : Pool := ops.foldl step p
+
+/-- credit settled (removed from the ledger) by an operation: only a successful withdrawal -/
+def settled (p : Pool) : Op → Int
+  | .withdraw sigOk wallet nonce now settleOk =>
+    match (p.Withdraw sigOk wallet nonce now settleOk).2 with
+    | .ok _ => (p.store.getAccountBalance wallet).credit
+    | .error _ => 0
+  | _ => 0
+
+def settledTotal : Pool → List Op → Int
+  | _, [] => 0
+  | p, op :: ops => settled p op + settledTotal (step p op) ops
 
 end Pool
 end Vipnode
